@@ -1,7 +1,7 @@
 #!/bin/bash
 # tools_all.sh [tier] : run every check once, print the summary lines
 tier=${1:-quick}
-cd /verif
+cd "$(dirname "$0")"
 for i in 01 02 03 04 05 06 07 08 09 10 11 12 13 14 15 16 17 18 19 20; do
   out=$(./run.sh C$i $tier 2>&1); rc=$?
   echo "rc=$rc $(echo "$out" | tail -1)"
